@@ -251,6 +251,7 @@ def run_tier_b_property(prop, tier, quick_s, thorough_s, drivers, collectors, co
         "fault_kinds_fired": {"gc_minor@alloc": tot("gc_minor_injected"), "gc_full@alloc": tot("gc_full_injected"), "alloc_fail_once": tot("alloc_fail_injected"),
                               "header_word_preemptions": tot("hot_taken")},
         "stop_the_world_operations_monitored": tot("stw_operations"),
+        "concurrent_sweeps_monitored": tot("sweeps"),
         "managed_allocations": tot("allocs"),
         "configuration_counts": merged_by,
         "determinism_gate": {"runs_executed_twice": det, "result": "identical (exit status, stdout, trace hash, decisions, allocation and fault counters)"},
